@@ -112,6 +112,10 @@ for S in ('f32', 'f64'):
         add('<%s as std::ops::Sub>::sub' % T, 'a: %s, b: %s' % (AS, AS), AS, 'a - b')
         add('<%s as std::ops::Rem>::rem' % T, 'a: %s, b: %s' % (AS, AS), AS, 'a % b')
         add('<%s as std::ops::Div<%s>>::div' % (T, S), 'a: %s, b: %s' % (AS, S), AS, 'a / b')
+        add('<%s as std::ops::Mul<%s>>::mul' % (T, S), 'a: %s, b: %s' % (AS, S), AS, 'a * b')
+        add('<%s as std::ops::Neg>::neg' % T, 'a: %s' % AS, AS, '-a')
+        add('<%s as cgmath::Angle>::opposite' % T, 'a: %s' % AS, AS, 'a.opposite()')
+        add('<%s as cgmath::Angle>::bisect' % T, 'a: %s, b: %s' % (AS, AS), AS, 'a.bisect(b)')
         for f, op in (('lt', '<'), ('le', '<='), ('gt', '>'), ('ge', '>=')):
             add('<%s as PartialOrd>::%s' % (T, f), 'a: &%s, b: &%s' % (AS, AS), 'bool', 'a %s b' % op)
         add('<%s as PartialOrd>::partial_cmp' % T, 'a: &%s, b: &%s' % (AS, AS), 'Option<std::cmp::Ordering>', 'a.partial_cmp(b)')
